@@ -119,4 +119,14 @@ def keypointsOutputs (cfg : Cfg) (kernel : List Rat) : List Rat :=
   let c := cumsumIncl 0 kernel
   if cfg.isCyclic then c ++ c.take 1 else c
 
+/-- `tf.split(result, units, axis=1)` on one example row (`units > 1 and split_outputs`): the list of
+per-unit tensors, each holding that unit's single output column -/
+def splitOutputs (ys : List Rat) : List (List Rat) := ys.map (fun y => [y])
+
+/-- what `call` hands back for one example: the `(units)` row, or its split into `units` one-entry
+rows when `units > 1 and split_outputs` (the same rule in `PWLCalibration.call` and
+`CategoricalCalibration.call`; a single unit is never split) -/
+def layerOutput (units : Nat) (split : Bool) (ys : List Rat) : List (List Rat) :=
+  if units > 1 ∧ split then splitOutputs ys else [ys]
+
 end Tfl.PwlEval
